@@ -556,6 +556,9 @@ func (ev *Eval) floatBuiltin(name string, t *wgen.Type, sc *wgen.Type, args []Va
 			s += f(x) * f(x)
 		}
 		r := ftol(math.Sqrt(s), uint16(8+2*len(a0.S)), a0.S...)
+		if s > math.MaxFloat32 || (s != 0 && s < 1e-37) {
+			r.Ind = true // the sum of squares overflows / underflows in f32: implementation-defined
+		}
 		if len(a0.S) == 1 {
 			r = ftol(math.Abs(f(a0.S[0])), 0, a0.S[0])
 		}
@@ -567,7 +570,11 @@ func (ev *Eval) floatBuiltin(name string, t *wgen.Type, sc *wgen.Type, args []Va
 			s += d * d
 		}
 		ins := append(append([]Sc{}, a0.S...), args[1].S...)
-		return Val{T: t, S: []Sc{ftol(math.Sqrt(s), uint16(12+2*len(a0.S)), ins...)}}
+		dr := ftol(math.Sqrt(s), uint16(12+2*len(a0.S)), ins...)
+		if s > math.MaxFloat32 || (s != 0 && s < 1e-37) {
+			dr.Ind = true
+		}
+		return Val{T: t, S: []Sc{dr}}
 	case "normalize":
 		var s float64
 		for _, x := range a0.S {
@@ -576,7 +583,7 @@ func (ev *Eval) floatBuiltin(name string, t *wgen.Type, sc *wgen.Type, args []Va
 		l := math.Sqrt(s)
 		out = map1(t, a0, func(x Sc) Sc {
 			r := ftol(f(x)/l, 16, a0.S...)
-			if l == 0 {
+			if l == 0 || s > math.MaxFloat32 || s < 1e-37 {
 				r.Ind = true
 			}
 			return r
